@@ -327,48 +327,6 @@ theorem C06_hashbrown_bucket_location (ctrlAddr size i : Nat) (h : (i + 1) * siz
 
 /-! ## Enums: which variant is shown -/
 
-/-- FULL: the key under which the type parser files a variant equals the (unsigned) discriminant number the decoder reads
-    from memory — for every constant width and every value.  FALSE of the unchanged code. -/
-def C06_enum_discr_key_full : Prop := ∀ w t : Nat, 0 < w → t < 256 ^ w → discrKey w t = (t : Int)
-
-/-- named hypothesis: the top bit of the constant is clear -/
-def TopBitClear (w t : Nat) : Prop := t < 2 ^ (8 * w - 1)
-instance (w t : Nat) : Decidable (TopBitClear w t) := by unfold TopBitClear; exact inferInstance
-
-theorem C06_enum_discr_key_partial (w t : Nat) (h : TopBitClear w t) : discrKey w t = (t : Int) := by
-  unfold TopBitClear at h
-  simp [discrKey, toSigned, h]
-
-/-- `#[repr(u8)] enum E { A(u16) = 3, B = 255 }`: B is filed under -1, memory holds 255 -/
-theorem C06_enum_discr_key_counterexample : ¬ C06_enum_discr_key_full := by
-  intro h
-  have := h 1 255 (by decide) (by decide)
-  revert this
-  decide
-
-/-- FULL: every unsigned enumerator constant of a C-like enum gets a key (so the variant can be shown).  FALSE. -/
-def C06_cenum_const_key_full : Prop := ∀ raw : Nat, raw < 2 ^ 64 → constKey raw = some (raw : Int)
-
-def FitsI64 (raw : Nat) : Prop := raw < 2 ^ 63
-instance (raw : Nat) : Decidable (FitsI64 raw) := by unfold FitsI64; exact inferInstance
-
-theorem C06_cenum_const_key_partial (raw : Nat) (h : FitsI64 raw) : constKey raw = some (raw : Int) := by
-  unfold FitsI64 at h; simp [constKey, h]
-
-/-- `#[repr(u64)] enum B { P = 1, Q = 9223372036854775808 }`: Q gets no key and is dropped from the table -/
-theorem C06_cenum_const_key_counterexample : ¬ C06_cenum_const_key_full := by
-  intro h
-  have := h 9223372036854775808 (by decide)
-  revert this
-  decide
-
-/-- FULL: every integer discriminant the decoder can read selects by its numeric value.  FALSE: 128-bit discriminants. -/
-def C06_enum_select_full : Prop :=
-  ∀ (k : IK) (v : Int), -(2 ^ 63 : Int) ≤ v → v < 2 ^ 63 → (Scalar.num k v).asNumber = some v
-
-def NotWide (k : IK) : Prop := k ≠ .i128 ∧ k ≠ .u128
-instance (k : IK) : Decidable (NotWide k) := by unfold NotWide; exact inferInstance
-
 theorem wrapI64_id (v : Int) (lo : -(2 ^ 63 : Int) ≤ v) (hi : v < 2 ^ 63) : wrapI64 v = v := by
   unfold wrapI64 toSigned
   have e64 : ((2 ^ 64 : Nat) : Int) = 18446744073709551616 := by decide
@@ -384,24 +342,106 @@ theorem wrapI64_id (v : Int) (lo : -(2 ^ 63 : Int) ≤ v) (hi : v < 2 ^ 63) : wr
       Int.emod_eq_of_lt (by omega) (by omega)
     rw [h1, h2]; split <;> omega
 
-/-- **C06_enum_select_partial**: every discriminant of at most 64 bits selects by its numeric value -/
-theorem C06_enum_select_partial (k : IK) (v : Int) (lo : -(2 ^ 63 : Int) ≤ v) (hi : v < 2 ^ 63) (h : NotWide k) :
+/-- integer kinds of at most 64 bits -/
+def NotWide (k : IK) : Prop := k ≠ .i128 ∧ k ≠ .u128
+instance (k : IK) : Decidable (NotWide k) := by unfold NotWide; exact inferInstance
+
+theorem pow256_le (w : Nat) (hw : w ≤ 8) : 256 ^ w ≤ 2 ^ 64 := by
+  have : (2 : Nat) ^ 64 = 256 ^ 8 := by decide
+  rw [this]; exact Nat.pow_le_pow_right (by decide) hw
+
+theorem constMask_id (w t : Nat) (hw : 0 < w) (hw8 : w ≤ 8) (ht : t < 256 ^ w) : t % 2 ^ constMaskBits w = t := by
+  apply Nat.mod_eq_of_lt
+  unfold constMaskBits
+  split
+  · have : (2 : Nat) ^ (8 * w) = 256 ^ w := by
+      have : (256 : Nat) = 2 ^ 8 := by decide
+      rw [this, ← Nat.pow_mul]
+    rw [this]; exact ht
+  · exact Nat.lt_of_lt_of_le ht (pow256_le w hw8)
+
+/-- **C06_enum_discr_key** (full strength; repaired by c9ce198): the key under which the type parser files a variant of an
+    enum with an UNSIGNED tag equals the discriminant number the decoder reads from memory (`try_as_number` of the tag) — for
+    every tag width up to 8 bytes and EVERY value, top bit set or not (`#[repr(u8)] … B = 255`: key 255, memory 255;
+    a u64 tag ≥ 2^63: both sides the same negative i64). -/
+theorem C06_enum_discr_key (w t : Nat) (k : IK) (hw : 0 < w) (hw8 : w ≤ 8) (ht : t < 256 ^ w) (hk : NotWide k) :
+    some (discrKey w t) = (Scalar.num k (t : Int)).asNumber := by
+  unfold NotWide at hk
+  simp [discrKey, intConstData, Scalar.asNumber, hk.1, hk.2, constMask_id w t hw hw8 ht]
+
+/-- … and for tags narrower than 8 bytes the key IS the unsigned value -/
+theorem C06_enum_discr_key_value (w t : Nat) (hw : 0 < w) (hw7 : w ≤ 7) (ht : t < 256 ^ w) : discrKey w t = (t : Int) := by
+  have h56 : 256 ^ w ≤ 256 ^ 7 := Nat.pow_le_pow_right (by decide) hw7
+  have e : (256 : Nat) ^ 7 = 72057594037927936 := by decide
+  have e63 : (2 : Int) ^ 63 = 9223372036854775808 := by decide
+  simp only [discrKey, intConstData, constMask_id w t hw (by omega) ht]
+  exact wrapI64_id _ (by omega) (by rw [e63]; omega)
+
+/-- the witness of the repaired defect: `B = 255` of a `repr(u8)` enum was filed under -1 -/
+example : discrKey 1 255 = 255 := by decide
+/-- a constant of a SIGNED tag keeps gimli's sign extension: `-1i8` in `DW_FORM_data1` -/
+example : intConstData none 1 255 = -1 := by decide
+
+/-- **C06_cenum_const_key** (full strength; repaired by c9ce198): every enumerator constant of a C-like enum with an unsigned
+    underlying type gets a key, and it is the number `try_as_number` makes of the value in memory — also above i64::MAX
+    (`#[repr(u64)] … Q = 9223372036854775808`). -/
+theorem C06_cenum_const_key (raw : Nat) (k : IK) (h : raw < 2 ^ 64) (hk : NotWide k) :
+    constKey raw = (Scalar.num k (raw : Int)).asNumber := by
+  unfold NotWide at hk
+  have hm : raw % 2 ^ constMaskBits 8 = raw := Nat.mod_eq_of_lt (by simpa [constMaskBits] using h)
+  simp [constKey, intConstUdata, Scalar.asNumber, hk.1, hk.2, hm]
+
+theorem C06_cenum_const_key_value (raw : Nat) (h : raw < 2 ^ 63) : constKey raw = some (raw : Int) := by
+  have hm : raw % 2 ^ constMaskBits 8 = raw := Nat.mod_eq_of_lt (by simp [constMaskBits]; omega)
+  have e63 : (2 : Int) ^ 63 = 9223372036854775808 := by decide
+  simp only [constKey, intConstUdata, hm]
+  rw [wrapI64_id _ (by omega) (by rw [e63]; omega)]
+
+/-- the witness of the repaired defect: the enumerator 2^63 was dropped; now it is filed under the i64 with the same bits, which is
+    what the u64 read from memory becomes -/
+example : constKey 9223372036854775808 = some (-9223372036854775808) := by decide
+example : (Scalar.num .u64 9223372036854775808).asNumber = some (-9223372036854775808) := by decide
+
+/-- **C06_enum_select** (full strength; repaired by 1f84510): every integer discriminant the decoder can read — 128-bit tags
+    included — selects by its numeric value. -/
+theorem C06_enum_select (k : IK) (v : Int) (lo : -(2 ^ 63 : Int) ≤ v) (hi : v < 2 ^ 63) :
     (Scalar.num k v).asNumber = some v := by
-  unfold NotWide at h
-  simp [Scalar.asNumber, h.1, h.2, wrapI64_id v lo hi]
+  have e63 : (2 : Int) ^ 63 = 9223372036854775808 := by decide
+  have lo' : (-9223372036854775808 : Int) ≤ v := by rw [e63] at lo; omega
+  have hi' : v < 9223372036854775808 := by rw [e63] at hi; omega
+  have h64 : v < 18446744073709551616 := by omega
+  simp only [Scalar.asNumber]
+  by_cases h1 : k = .i128
+  · subst h1; simp [lo', hi']
+  · by_cases h2 : k = .u128
+    · subst h2; simp [h64, wrapI64_id v lo hi]
+    · simp [h1, h2, wrapI64_id v lo hi]
 
-/-- `Option<u128>`: the tag is a u128, `try_as_number` refuses it, no variant is shown -/
-theorem C06_enum_select_counterexample : ¬ C06_enum_select_full := by
-  intro h
-  have := h .u128 1 (by decide) (by decide)
-  revert this
-  decide
+/-- the 16-byte block constant of a 128-bit tag (`DW_AT_discr_value` of `Option<u128>`) is filed under the same number the
+    decoder reads from the tag in memory -/
+theorem C06_enum_wide_key (t : Nat) (h : t < 2 ^ 64) :
+    wideConst true (leBytes 16 t) = (Scalar.num .u128 (t : Int)).asNumber := by
+  have h16 : t < 256 ^ 16 := Nat.lt_of_lt_of_le h (by decide)
+  have hl : (leBytes 16 t).length = 16 := leBytes_length 16 t
+  have hne : (leBytes 16 t).isEmpty = false := by
+    cases hq : leBytes 16 t with
+    | nil => rw [hq] at hl; simp at hl
+    | cons _ _ => rfl
+  have hi : (t : Int) < 18446744073709551616 := by omega
+  simp [wideConst, hl, hne, C06_scalar_unsigned 16 t h16, h, Scalar.asNumber, hi]
 
-/-- the variant the decoder shows for discriminant number `v`: the one keyed `v`, else the default one -/
-def selectVariant (enums : List (Option Int × Member)) (v : Int) : Option Member :=
-  match enums.find? (·.1 == some v) with
-  | some e => some e.2
-  | none => (enums.find? (·.1 == none)).map (·.2)
+/-- `Option<u128>`: `None` = block 0, `Some` = block 1; memory tag 1 selects key 1 -/
+example : wideConst true (leBytes 16 1) = some 1 ∧ (Scalar.num .u128 1).asNumber = some 1 := by decide
+
+/-- **C06_enum_single_variant** (repaired by 4796f22): an enum without discriminant member that has one variant shows it,
+    whatever is (not) read as discriminant -/
+theorem C06_enum_single_variant (e : Option Int × Member) (dv : Option Int) : chooseVariant none [e] dv = some e.2 := by
+  simp [chooseVariant]
+
+/-- with a discriminant member the variant is selected by the number read from memory -/
+theorem C06_enum_by_discriminant (m : Member) (enums : List (Option Int × Member)) (v : Int) :
+    chooseVariant (some m) enums (some v) = selectVariant enums v := by
+  simp [chooseVariant]
 
 /-- **C06_enum_no_foreign_variant**: whatever the table, the variant shown for number `v` is keyed `v` or is the default
     (niche) variant — never a variant keyed with a different number -/
